@@ -1,9 +1,9 @@
 CONSTANTS Chars <- CharsQuick
-          DedupByConcat = FALSE
+          DedupByConcat = TRUE
           MaxWord = 2
           MaxDict = 3
-          MaxBound = 2
+          MaxBound = 1
 INIT DInit
 NEXT DNext
-INVARIANTS EmitCase
+INVARIANTS MergedIsUnion
 CHECK_DEADLOCK FALSE
